@@ -45,3 +45,31 @@ def search_counterexample(prop, fail, unit_res, repo, verif, build):
     if not fam:
         return dict(counterexample=None, counterexample_search="no scenario family registered for this property")
     return fam(prop, fail, unit_res, repo, verif, build)
+
+
+def _dw_shim(binname, repo, verif, build, timeout=900):
+    """Build replay/dw_shim (real distributed-walrus/src/metadata.rs + serde_json-backed bincode shim) and run a family bin."""
+    d = os.path.join(build, "replay-dw_shim")
+    if os.path.exists(d):
+        shutil.rmtree(d)
+    shutil.copytree(os.path.join(verif, "replay", "dw_shim"), d, ignore=shutil.ignore_patterns("target"))
+    lib = os.path.join(d, "src", "lib.rs")
+    s = open(lib).read().replace("@METADATA@", os.path.join(repo, "distributed-walrus/src/metadata.rs"))
+    open(lib, "w").write(s)
+    env = dict(os.environ, CARGO_NET_OFFLINE="true", CARGO_TARGET_DIR=os.path.join(build, "replay-dw_shim-target"))
+    p = subprocess.run(["cargo", "run", "--offline", "--release", "-q", "--bin", binname], cwd=d, env=env,
+                       capture_output=True, text=True, timeout=timeout)
+    last = [l for l in p.stdout.splitlines() if l.startswith("{")]
+    if not last:
+        return dict(counterexample=None, counterexample_search="dw_shim/%s gave no verdict (rc=%d): %s" % (binname, p.returncode, p.stderr[-600:]))
+    v = json.loads(last[-1])
+    if v.get("found"):
+        return dict(counterexample=v, counterexample_search="scenario family replay/dw_shim/%s run natively against the real Metadata::apply (serde_json-backed bincode shim)" % binname)
+    return dict(counterexample=None, counterexample_search="scenario family dw_shim/%s: %s histories, none failed" % (binname, v.get("tried")))
+
+
+def family_c18(prop, fail, unit_res, repo, verif, build):
+    return _dw_shim("c18_family", repo, verif, build)
+
+
+FAMILIES["C18"] = family_c18
